@@ -8,6 +8,8 @@ import (
 	"io"
 	"log/slog"
 	"strings"
+	"sync"
+	"sync/atomic"
 	"time"
 
 	"github.com/jackc/pgx/v5/pgtype"
@@ -98,8 +100,130 @@ func mkVal(v valT, colOid int) any {
 
 // ---- recording ----
 type recorder struct {
-	conn   *memConn
-	events []string
+	conn     *memConn
+	events   []string
+	cfg      *cfgT
+	cparams  map[string]string // the client's startup parameters, read off its own byte stream
+	cparamOK bool
+	lastCtx  context.Context
+}
+
+// registry routes callbacks of one server to the recorder of the connection
+// they belong to (identified by the remote address stored in the context).
+type registry struct {
+	mu   sync.Mutex
+	recs map[string]*recorder
+}
+
+func (g *registry) add(r *recorder) {
+	g.mu.Lock()
+	g.recs[r.conn.addr] = r
+	g.mu.Unlock()
+}
+
+func (g *registry) of(ctx context.Context) *recorder {
+	a := wire.RemoteAddress(ctx)
+	g.mu.Lock()
+	defer g.mu.Unlock()
+	if a == nil {
+		for _, r := range g.recs {
+			return r
+		}
+		return nil
+	}
+	return g.recs[a.String()]
+}
+
+func (r *recorder) bad(format string, a ...any) {
+	r.add("ctxbad", []byte(fmt.Sprintf(format, a...)))
+}
+
+// statusParams reads the ParameterStatus messages the server has sent so far.
+func statusParams(out []byte) map[string]string {
+	m := map[string]string{}
+	for len(out) >= 5 {
+		l := int(uint32(out[1])<<24 | uint32(out[2])<<16 | uint32(out[3])<<8 | uint32(out[4]))
+		if l < 4 || len(out) < 1+l {
+			break
+		}
+		if out[0] == 'S' {
+			body := out[5 : 1+l]
+			if i := bytesIndex0(body); i >= 0 {
+				k := string(body[:i])
+				rest := body[i+1:]
+				if j := bytesIndex0(rest); j >= 0 {
+					m[k] = string(rest[:j])
+				}
+			}
+		}
+		out = out[1+l:]
+	}
+	return m
+}
+
+func bytesIndex0(b []byte) int {
+	for i, x := range b {
+		if x == 0 {
+			return i
+		}
+	}
+	return -1
+}
+
+// checkCtx verifies what the context handed to a parser / statement / hook call carries.
+func (r *recorder) checkCtx(ctx context.Context, command bool) {
+	if ctx.Err() != nil {
+		r.bad("context already cancelled during the callback")
+	}
+	if a := wire.RemoteAddress(ctx); a == nil || a.String() != r.conn.addr {
+		r.bad("remote address %v, want %s", a, r.conn.addr)
+	}
+	if wire.TypeMap(ctx) == nil {
+		r.bad("type map missing")
+	}
+	if r.cparamOK {
+		got := wire.ClientParameters(ctx)
+		if len(got) != len(r.cparams) {
+			r.bad("client parameters %v, want %v", got, r.cparams)
+		} else {
+			for k, v := range r.cparams {
+				if gv, ok := got[wire.ParameterStatus(k)]; !ok || gv != v {
+					r.bad("client parameter %q = %q, want %q", k, gv, v)
+				}
+			}
+		}
+	}
+	if command {
+		r.conn.mu.Lock()
+		out := append([]byte{}, r.conn.out...)
+		r.conn.mu.Unlock()
+		if len(out) > 0 && r.conn.sslFirst {
+			out = out[1:]
+		}
+		want := statusParams(out)
+		got := wire.ServerParameters(ctx)
+		if len(got) != len(want) {
+			r.bad("server parameters %v, want %v", got, want)
+		} else {
+			for k, v := range want {
+				if gv, ok := got[wire.ParameterStatus(k)]; !ok || gv != v {
+					r.bad("server parameter %q = %q, want %q", k, gv, v)
+				}
+			}
+		}
+		for i, ok := range r.cfg.mws {
+			if ok {
+				if v, _ := ctx.Value(ctxKeyT(i)).(int); ctx.Value(ctxKeyT(i)) == nil || v != i {
+					r.bad("value of middleware %d missing from the context", i)
+				}
+			}
+		}
+		// the context of the previous command must be cancelled once that command ended
+		if r.lastCtx != nil && r.lastCtx.Done() != ctx.Done() && r.lastCtx.Err() == nil {
+			r.bad("context of the previous command is still alive")
+		}
+		r.lastCtx = ctx
+	}
 }
 
 func (r *recorder) add(kind string, parts ...any) {
@@ -116,8 +240,10 @@ func errRes(err error) string {
 type ctxKeyT int
 
 // buildServer constructs the real server scripted by the case.
-func buildServer(c *cfgT, r *recorder, extra ...wire.OptionFn) (*wire.Server, error) {
+func buildServer(c *cfgT, reg *registry, extra ...wire.OptionFn) (*wire.Server, error) {
 	parse := func(ctx context.Context, query string) (wire.PreparedStatements, error) {
+		r := reg.of(ctx)
+		r.checkCtx(ctx, true)
 		r.add("parse", []byte(query))
 		var entry *parseEntry
 		for i := range c.parse {
@@ -144,6 +270,8 @@ func buildServer(c *cfgT, r *recorder, extra ...wire.OptionFn) (*wire.Server, er
 				po = append(po, oid.Oid(uint32(p)))
 			}
 			fn := func(ctx context.Context, w wire.DataWriter, params []wire.Parameter) error {
+				r := reg.of(ctx)
+				r.checkCtx(ctx, true)
 				ps := []any{"params"}
 				for _, p := range params {
 					if p.Value() == nil {
@@ -233,6 +361,8 @@ func buildServer(c *cfgT, r *recorder, extra ...wire.OptionFn) (*wire.Server, er
 	}
 	if c.auth != "none" {
 		opts = append(opts, wire.SessionAuthStrategy(wire.ClearTextPassword(func(ctx context.Context, database, username, password string) (context.Context, bool, error) {
+			r := reg.of(ctx)
+			r.checkCtx(ctx, false)
 			r.add("validate", []byte(database), []byte(username), []byte(password))
 			switch c.auth {
 			case "pw":
@@ -249,6 +379,13 @@ func buildServer(c *cfgT, r *recorder, extra ...wire.OptionFn) (*wire.Server, er
 	for i, ok := range c.mws {
 		i, ok := i, ok
 		opts = append(opts, wire.SessionMiddleware(func(ctx context.Context) (context.Context, error) {
+			r := reg.of(ctx)
+			r.checkCtx(ctx, false)
+			for j := 0; j < i; j++ {
+				if ctx.Value(ctxKeyT(j)) == nil {
+					r.bad("middleware %d did not receive the context of middleware %d", i, j)
+				}
+			}
 			r.add("mw", i)
 			if !ok {
 				return ctx, errors.New("middleware failure")
@@ -258,6 +395,8 @@ func buildServer(c *cfgT, r *recorder, extra ...wire.OptionFn) (*wire.Server, er
 	}
 	if c.term != "none" {
 		opts = append(opts, wire.TerminateConn(func(ctx context.Context) error {
+			r := reg.of(ctx)
+			r.checkCtx(ctx, true)
 			r.add("terminate")
 			if c.term == "err" {
 				return errors.New("terminate hook failure")
@@ -296,15 +435,65 @@ func (o *obsT) sx(sslreq bool) string {
 
 const idleTimeout = 10 * time.Second
 
-// runSession drives one real connection as the case prescribes.
-func runSession(c *caseT) *obsT {
+var connSeq int64
+
+func newSession(c *caseT, reg *registry) (*memConn, *recorder) {
 	conn := newMemConn()
-	rec := &recorder{conn: conn}
-	srv, err := buildServer(&c.cfg, rec)
-	if err != nil {
-		panic(err)
+	conn.addr = fmt.Sprintf("client-%d", atomic.AddInt64(&connSeq, 1))
+	conn.sslFirst = isSSLRequest(c.raw)
+	rec := &recorder{conn: conn, cfg: &c.cfg}
+	rec.cparams, rec.cparamOK = startupParams(c.raw, c.cfg.tls)
+	reg.add(rec)
+	return conn, rec
+}
+
+// startupParams reads the client's startup pairs off its own byte stream.
+func startupParams(raw []byte, tlsOn bool) (map[string]string, bool) {
+	pkt := func(b []byte) (body, rest []byte, ok bool) {
+		if len(b) < 4 {
+			return nil, nil, false
+		}
+		l := int(uint32(b[0])<<24 | uint32(b[1])<<16 | uint32(b[2])<<8 | uint32(b[3]))
+		if l < 8 || len(b) < l {
+			return nil, nil, false
+		}
+		return b[4:l], b[l:], true
 	}
-	o := &obsT{}
+	body, rest, ok := pkt(raw)
+	if !ok {
+		return nil, false
+	}
+	if isSSLRequest(raw) {
+		if tlsOn {
+			return nil, false
+		}
+		body, _, ok = pkt(rest)
+		if !ok {
+			return nil, false
+		}
+	}
+	m := map[string]string{}
+	b := body[4:]
+	for {
+		i := bytesIndex0(b)
+		if i < 0 {
+			return nil, false
+		}
+		if i == 0 {
+			return m, true
+		}
+		k := string(b[:i])
+		b = b[i+1:]
+		j := bytesIndex0(b)
+		if j < 0 {
+			return nil, false
+		}
+		m[k] = string(b[:j])
+		b = b[j+1:]
+	}
+}
+
+func serveAsync(srv *wire.Server, conn *memConn, o *obsT) {
 	go func() {
 		defer conn.markFinished()
 		defer func() {
@@ -314,6 +503,33 @@ func runSession(c *caseT) *obsT {
 		}()
 		srv.ServeConn(context.Background(), conn)
 	}()
+}
+
+func collect(conn *memConn, rec *recorder, o *obsT) {
+	// the context of the last command must be cancelled once the connection is over
+	if rec.lastCtx != nil && rec.lastCtx.Err() == nil {
+		rec.bad("context of the last command is still alive after the connection ended")
+	}
+	conn.mu.Lock()
+	o.out = append([]byte{}, conn.out...)
+	o.closed = conn.closed
+	o.events = append([]string{}, rec.events...)
+	conn.mu.Unlock()
+	if o.hang {
+		conn.Close()
+	}
+}
+
+// runSession drives one real connection as the case prescribes.
+func runSession(c *caseT) *obsT {
+	reg := &registry{recs: map[string]*recorder{}}
+	conn, rec := newSession(c, reg)
+	srv, err := buildServer(&c.cfg, reg)
+	if err != nil {
+		panic(err)
+	}
+	o := &obsT{}
+	serveAsync(srv, conn, o)
 	rest := c.raw
 	for _, n := range c.chunks {
 		if n > len(rest) {
@@ -344,15 +560,110 @@ func runSession(c *caseT) *obsT {
 			o.hang = true
 		}
 	}
-	conn.mu.Lock()
-	o.out = append([]byte{}, conn.out...)
-	o.closed = conn.closed
-	o.events = append([]string{}, rec.events...)
-	conn.mu.Unlock()
-	if o.hang {
-		conn.Close()
-	}
+	collect(conn, rec, o)
 	return o
+}
+
+// runMulti serves several connections on ONE server (all cases must share the
+// configuration). In lock-step mode chunks are delivered one at a time in the
+// order of [schedule] (indices into cases); otherwise all clients run freely
+// in parallel.
+func runMulti(cases []*caseT, schedule []int, free bool) []*obsT {
+	reg := &registry{recs: map[string]*recorder{}}
+	srv, err := buildServer(&cases[0].cfg, reg)
+	if err != nil {
+		panic(err)
+	}
+	n := len(cases)
+	conns := make([]*memConn, n)
+	recs := make([]*recorder, n)
+	obs := make([]*obsT, n)
+	rests := make([][]byte, n)
+	next := make([]int, n)
+	for i, c := range cases {
+		conns[i], recs[i] = newSession(c, reg)
+		obs[i] = &obsT{}
+		rests[i] = c.raw
+		serveAsync(srv, conns[i], obs[i])
+	}
+	if free {
+		var wg sync.WaitGroup
+		for i := range cases {
+			wg.Add(1)
+			go func(i int) {
+				defer wg.Done()
+				c := cases[i]
+				rest := c.raw
+				for _, k := range c.chunks {
+					if k > len(rest) {
+						k = len(rest)
+					}
+					conns[i].push(rest[:k])
+					rest = rest[k:]
+				}
+				conns[i].push(rest)
+				conns[i].setEOF()
+				if !conns[i].waitFinished(idleTimeout) {
+					obs[i].hang = true
+				}
+			}(i)
+		}
+		wg.Wait()
+	} else {
+		for _, i := range schedule {
+			c := cases[i]
+			if next[i] >= len(c.chunks) || obs[i].hang || conns[i].over() {
+				continue
+			}
+			k := c.chunks[next[i]]
+			next[i]++
+			if k > len(rests[i]) {
+				k = len(rests[i])
+			}
+			if k == 0 {
+				continue
+			}
+			conns[i].push(rests[i][:k])
+			rests[i] = rests[i][k:]
+			if !conns[i].waitIdle(idleTimeout) {
+				obs[i].hang = true
+				continue
+			}
+			obs[i].steps = append(obs[i].steps, conns[i].outLen())
+		}
+		for i := range cases {
+			if obs[i].hang {
+				continue
+			}
+			// whatever the schedule did not deliver is delivered now, still one chunk at a time
+			c := cases[i]
+			for next[i] < len(c.chunks) && !conns[i].over() {
+				k := c.chunks[next[i]]
+				next[i]++
+				if k > len(rests[i]) {
+					k = len(rests[i])
+				}
+				if k == 0 {
+					continue
+				}
+				conns[i].push(rests[i][:k])
+				rests[i] = rests[i][k:]
+				if !conns[i].waitIdle(idleTimeout) {
+					obs[i].hang = true
+					break
+				}
+				obs[i].steps = append(obs[i].steps, conns[i].outLen())
+			}
+			conns[i].setEOF()
+			if !obs[i].hang && !conns[i].waitFinished(idleTimeout) {
+				obs[i].hang = true
+			}
+		}
+	}
+	for i := range cases {
+		collect(conns[i], recs[i], obs[i])
+	}
+	return obs
 }
 
 func isSSLRequest(raw []byte) bool {
